@@ -202,7 +202,8 @@ def build_cases(run, r):
         g, _ = gen_stream.gen_tcp_msg(r, "ping")
         stream = g + f + g
         meta = {"kinds": ["ping", "capfit", "ping"], "tail": "capfit%+d" % d,
-                "hot": list(range(len(g) + 1, len(g) + 1 + gen_stream.tcp_hdr_len(f[0])))}
+                "hot": list(range(len(g) + 1, len(g) + 1 + gen_stream.tcp_hdr_len(f[0]))),
+                "expect": ([226, gen_stream.frame_code(f), 226], 0) if d <= 0 else ([226], 1)}
         cuts = []
         for _ in range(3):
             tok, kind = gen_stream.random_cuts(r, len(stream), meta["hot"])
@@ -210,6 +211,41 @@ def build_cases(run, r):
                 cuts.append((tok, kind))
         cs.add(mtu, stream, cuts, meta)
     return cs
+
+
+def leaf_sweeps(run, model, drv, r):
+    """header arithmetic as a leaf: coap_pdu_parse_header_size / coap_pdu_parse_size on every first
+    byte x every value of each following header byte (the other bytes drawn from boundary values),
+    and coap_session_max_pdu_rcv_size over the csm_rcv_mtu range"""
+    quick = run.tier == "quick"
+    S = [0x00, 0x01, 0x0c, 0x0d, 0x7f, 0x80, 0xfe, 0xff]
+    vals = list(range(256)) if not quick else sorted(set(S + [r.randrange(256) for _ in range(10)] + [0x02, 0x10, 0xf0]))
+    lines = []
+    for b0 in range(256):
+        hl = gen_stream.tcp_hdr_len(b0)
+        for pos in range(1, hl):
+            for v in vals:
+                for _ in range(2 if not quick else 1):
+                    h = [b0] + [r.choice(S) for _ in range(hl - 1)]
+                    h[pos] = v
+                    lines.append("tcpsize " + bytes(h).hex())
+    mtus = list(range(0, 70001)) if not quick else list(range(0, 300)) + [65806, 65807, 65808, 65809, 65810, 70000,
+                                                                         gen_stream.HARD - 1, gen_stream.HARD]
+    lines += ["tcpmaxrcv %d" % m for m in mtus]
+    om = stream_util.run_cases(model, lines, batch=20000)
+    oc = stream_util.run_cases(drv, lines, batch=20000)
+    nbad = 0
+    for ln, a, b in zip(lines, om, oc):
+        run.count(ln, ln.startswith("tcpsize"))
+        run.hist("leaf", ln.split()[0])
+        if a != b:
+            nbad += 1
+            if nbad <= 2:
+                run.violation("header arithmetic differs from the model on %s: model %s, implementation %s" % (ln, a, b),
+                              "correspondence case: %s\nmodel: %s\nimplementation: %s\n" % (ln, a, b),
+                              tag="leaf%d" % nbad, no_input=True)
+    run.cov["leaf_cases"] = len(lines)
+    run.cov["leaf_disagreements"] = nbad
 
 
 def shrink(drv, mtu, stream, pts, fails):
@@ -256,6 +292,7 @@ def main(run):
                       tag="consts", no_input=True)
 
     r = tie.rng_for(run, "c05")
+    leaf_sweeps(run, model, drv, r)
     lines, idx, groups = [], [], []
     replay = getattr(run, "replay", None)
     corpus = list(vlib.read_corpus("C05"))
@@ -292,7 +329,7 @@ def main(run):
         return oracle_view(outs[0]) != oracle_view(outs[1]) and "HANG" not in outs and "<not run>" not in outs
 
     ref = {}
-    n_or_bad = n_tie_bad = n_tie_skipped = n_tie = 0
+    n_or_bad = n_tie_bad = n_tie_skipped = n_tie = n_fr_bad = 0
     for li, (gi, ci) in enumerate(idx):
         mtu, stream, cuts, meta = cs.groups[gi]
         co, mo = oc[li], om[li]
@@ -338,9 +375,24 @@ def main(run):
                               "model (proved reader), cut: %s\n(original case: %s)\n"
                               % (mtu, stream.hex(), stok, mtu, stream.hex(), outs[1], outs[0], mo, lines[li]),
                               tag="oracle%d" % n_or_bad)
+        # ---- implementation-only framing oracle: the messages the stream was built from are
+        # delivered in order (CSM has no handler), the close comes exactly for an oversize declaration
+        so = split_out(co)
+        ex = meta.get("expect")
+        if ex is not None and so is not None and (mtu == 0 or meta["tail"].startswith("capfit")):
+            want = [c for c in ex[0] if c != 225]
+            got = [item_code(it) for it in so[0] if it != "X"]
+            if got != want or so[1] != str(ex[1]) or (("X" in so[0]) != bool(ex[1])):
+                n_fr_bad += 1
+                if n_fr_bad <= 2:
+                    run.violation("TCP session does not deliver the messages of the stream in order (codes sent %s%s, "
+                                  "delivered %s closed=%s; arrivals %s)"
+                                  % (want, " then oversize" if ex[1] else "", got, so[1], tok[:40]),
+                                  "case: %s\nmessages the stream was built from (codes): %s, closes: %d\n"
+                                  "implementation: %s\nmodel (proved reader): %s\n" % (lines[li], ex[0], ex[1], co, mo),
+                                  tag="frames%d" % n_fr_bad)
         # ---- tie: model vs implementation
         exp = expected_from_model(mo)
-        so = split_out(co)
         if so is None:
             n_tie_bad += 1
             if n_tie_bad <= 2:
@@ -364,7 +416,9 @@ def main(run):
                         % (len(stream), tok[:40], exp[0][:3], exp[1], so[0][:3], so[1]))
                 run.violation(what, "correspondence case: %s\nmodel (proved reader): %s\nimplementation: %s\n"
                               % (lines[li], mo, co), tag="tie%d" % n_tie_bad, no_input=single_ok)
+    stream_util.cleanup_sockets()
     run.cov["oracle_failures"] = n_or_bad
+    run.cov["framing_oracle_failures"] = n_fr_bad
     run.cov["tie_compared"] = n_tie
     run.cov["tie_disagreements"] = n_tie_bad
     run.cov["tie_not_predicted"] = n_tie_skipped
